@@ -185,6 +185,14 @@ def correspond(ctx):
         sl.shapes.add_picture(io.BytesIO(blob), 0, 0)
         nb, nfmt, _ = make_image(rng)
         sl.shapes.add_picture(io.BytesIO(nb), 0, 0)
+        if rng.random() < 0.5:
+            # the library's own default icon (an EMF that Pillow reports as WMF): once before, once after another re-open
+            from pptx.enum.shapes import PROG_ID
+            sl.shapes.add_ole_object(io.BytesIO(b"ole-a"), PROG_ID.XLSX, 0, 0)
+            bb = io.BytesIO(); re_.save(bb)
+            re_ = Presentation(io.BytesIO(bb.getvalue()))
+            re_.slides[0].shapes.add_ole_object(io.BytesIO(b"ole-b"), PROG_ID.XLSX, 0, 0)
+            ctx.count("default-ole-icon-across-reopen")
         b2 = io.BytesIO(); re_.save(b2)
         z2 = zipfile.ZipFile(io.BytesIO(b2.getvalue()))
         media = [n for n in z2.namelist() if n.startswith("ppt/media/image")]
